@@ -30,6 +30,7 @@ def as_slist(interp, src):
     if isinstance(src, SList):
         return src
     if isinstance(src, models.SIter):
+        # (an eager generator-by-contract is consumed completely here: fine)
         rest = slice_(interp, src.xs, slice(src.pos, None, None)) if not (isinstance(src.pos, int) and src.pos == 0) \
             else src.xs
         src.pos = wrap(src.xs.length)
@@ -154,7 +155,8 @@ def contains(interp, xs, x):
 def method(interp, xs, name, args, kwargs):
     from .mlist import MList
     from . import mlist
-    if isinstance(xs, MList) and name in ('append', 'insert', 'pop', 'extend', 'copy', 'clear'):
+    if isinstance(xs, MList) and (name in ('append', 'insert', 'pop', 'extend', 'copy', 'clear')
+                                  or (xs.is_deque and name in ('popleft', 'appendleft'))):
         return mlist.method(interp, xs, name, args, kwargs)
     if name in ('append', 'insert', 'pop', 'extend', 'clear', 'remove', 'sort', 'reverse'):
         raise Unsupported('mutation (%s) of an immutable symbolic sequence: declare it MListOf(...)' % name)
